@@ -360,8 +360,18 @@ func genMtl(r *hx.Rng, defs []string) string {
 	if r.Chance(1, 5) {
 		b.WriteString(eol)
 	}
+	blank := func() string { return hx.Pick(r, []string{" ", " ", " ", "\t", "  ", " \t"}) }
 	for i, n := range defs {
-		b.WriteString("newmtl " + n + eol)
+		// white space of the statement itself: any run of blanks separates the keyword and the pieces of the name,
+		// blanks may lead and trail (strings.Fields on both sides of the round trip)
+		if r.Chance(1, 8) {
+			b.WriteString(hx.Pick(r, []string{" ", "\t", "   "}))
+		}
+		b.WriteString("newmtl" + blank() + strings.Join(strings.Fields(n), blank()))
+		if r.Chance(1, 8) {
+			b.WriteString(hx.Pick(r, []string{" ", "\t", " \t "}))
+		}
+		b.WriteString(eol)
 		for _, st := range []string{"Kd 0.8 0.1 0.1", "Ka 0 0 0", "Ks 0.5 0.5 0.5", "Ns 96.078431", "Ni 1", "d 1", "illum 2",
 			"map_Kd tex " + strconv.Itoa(i) + ".png", "#newmtl hidden", "# newmtl hidden2", "\tKd 0 1 0"} {
 			if r.Chance(1, 3) {
@@ -565,5 +575,49 @@ func genBigFile(r *hx.Rng, run *hx.Run) string {
 		}
 	}
 	run.Count("file:big-over-64KiB")
+	return b.String()
+}
+
+// genCollide: corner tokens of one group whose digit strings coincide once the slashes are taken out or the
+// numbers are glued together ("112", "1/12", "11/2", "1//12", "11//2", "1/1/2"): large tables (130 v, 30 vt, 30 vn,
+// all entries distinct), so every such token is valid and names a different vertex; a de-duplication key that is
+// not injective on the token text merges them.
+func genCollide(r *hx.Rng, run *hx.Run) string {
+	var b strings.Builder
+	for i := 1; i <= 130; i++ {
+		fmt.Fprintf(&b, "v %d %d 0.5\n", i, -i)
+	}
+	for i := 1; i <= 30; i++ {
+		fmt.Fprintf(&b, "vt %d 0.25\n", i)
+	}
+	for i := 1; i <= 30; i++ {
+		fmt.Fprintf(&b, "vn 0 %d 1\n", i)
+	}
+	family := func() []string {
+		x, y := r.Range(1, 2), r.Range(1, 9) // the digit string 1xy = 111..129
+		xs, ys := strconv.Itoa(x), strconv.Itoa(y)
+		return []string{"1" + xs + ys, "1/" + xs + ys, "1" + xs + "/" + ys, "1//" + xs + ys, "1" + xs + "//" + ys, "1/" + xs + "/" + ys}
+	}
+	groups := r.Range(1, 2)
+	for g := 0; g < groups; g++ {
+		if g > 0 || r.Bool() {
+			b.WriteString("g " + hx.Pick(r, groupNames) + "\n")
+		}
+		fam := family()
+		sameForm := r.Chance(1, 3) // only the two v/vt tokens (or the two v//vn ones): the attribute stays attached
+		for f := r.Range(2, 6); f > 0; f-- {
+			tok := func() string {
+				if sameForm {
+					return hx.Pick(r, []string{fam[1], fam[2]})
+				}
+				if r.Chance(1, 5) {
+					return strconv.Itoa(r.Range(1, 130))
+				}
+				return hx.Pick(r, fam)
+			}
+			b.WriteString("f " + tok() + " " + tok() + " " + tok() + "\n")
+		}
+	}
+	run.Count("file:colliding-corner-digits")
 	return b.String()
 }
